@@ -23,7 +23,7 @@ pub struct GenCfg {
     pub pragma_mode: u8,
     /// each top-level head / member head / statement starts a new line (declaration heads on one line)
     pub newline_items: bool,
-    /// 0 = general; 1 = declaration-heavy (C06); 2 = mutability-heavy (C08)
+    /// 0 = general; 1 = declaration-heavy (C06); 2 = mutability-heavy (C08); 3 = selfdestruct-heavy (C07)
     pub focus: u8,
 }
 
@@ -491,6 +491,17 @@ impl<'t, 'd> Gen<'t, 'd> {
             }
             return;
         }
+        if self.cfg.focus == 3 {
+            match self.t.below(16) {
+                0..=8 => self.selfdestruct_function(),
+                9 | 10 => self.function(interface),
+                11 => self.state_var(),
+                12 => self.constructor(),
+                13 => self.modifier(),
+                _ => self.fallback(),
+            }
+            return;
+        }
         if self.cfg.focus == 2 {
             match self.t.below(16) {
                 0..=6 => self.state_var(),
@@ -578,7 +589,17 @@ impl<'t, 'd> Gen<'t, 'd> {
         self.w(&name);
         if constant || self.t.chance(90) {
             self.w("=");
-            self.expr(1, 14);
+            if self.cfg.focus == 2 && !self.state_vars.is_empty() && self.t.chance(70) {
+                // an initialiser that writes another state variable
+                let other = self.state_vars[self.t.below(self.state_vars.len())].clone();
+                self.w("(");
+                self.w(&other);
+                self.wp(&["=", "=", "+=", "="]);
+                self.expr(2, 14);
+                self.w(")");
+            } else {
+                self.expr(1, 14);
+            }
         }
         self.w(";");
         self.state_vars.push(name);
@@ -646,7 +667,14 @@ impl<'t, 'd> Gen<'t, 'd> {
         self.params.clear();
         self.locals.clear();
         self.n_fn += 1;
-        let name = if self.t.chance(90) { format!("_f{}", self.n_fn) } else { format!("f{}", self.n_fn) };
+        let name = if self.t.chance(60) {
+            // the same function name may well occur in several contracts (and as an overload)
+            self.t.pick(&["kill", "shutdown", "_sweep", "update", "_update", "withdraw"]).to_string()
+        } else if self.t.chance(90) {
+            format!("_f{}", self.n_fn)
+        } else {
+            format!("f{}", self.n_fn)
+        };
         self.w("function");
         self.w(&name);
         self.param_list(true);
@@ -679,6 +707,89 @@ impl<'t, 'd> Gen<'t, 'd> {
         }
         self.params.clear();
         self.locals.clear();
+    }
+
+    /// a function whose body contains a selfdestruct/suicide call at some depth,
+    /// with a tape-chosen visibility, modifier and msg.sender usage class
+    fn selfdestruct_function(&mut self) {
+        self.params.clear();
+        self.locals.clear();
+        self.n_fn += 1;
+        let name = self.t.pick(&["kill", "shutdown", "destroy", "close", "_sweep"]).to_string();
+        if self.t.chance(30) {
+            self.w("fallback ( )");
+        } else {
+            self.w("function");
+            self.w(&name);
+            self.w("( )");
+        }
+        self.wp(&["public", "external", "external", "public", "internal", "private", ""]);
+        if self.t.chance(70) {
+            self.wp(&["onlyOwner", "only", "auth", "Only", "nonReentrant", "mod . only", "whenNotPaused ( a )"]);
+        }
+        self.w("{");
+        self.nl();
+        if self.t.chance(80) {
+            self.stmt(3);
+            self.nl();
+        }
+        match self.t.below(12) {
+            0 => self.w("require ( msg . sender == owner ) ;"),
+            1 => self.w("check ( msg . sender ) ;"),
+            2 => self.w("if ( msg . sender != owner ) revert ( ) ;"),
+            3 => self.w("address payable l0 = payable ( msg . sender ) ;"),
+            4 => self.w("require ( owner == msg . sender , \"no\" ) ;"),
+            5 => self.w("emit Killed ( address ( msg . sender ) ) ;"),
+            6 => self.w("require ( msg . sender != address ( 0 ) , \"zero\" ) ;"),
+            7 => self.w("uint160 who = uint160 ( msg . sender ) ;"),
+            _ => {}
+        }
+        self.nl();
+        let depth = self.t.below(4);
+        let mut closers: Vec<&str> = Vec::new();
+        for _ in 0..depth {
+            match self.t.below(6) {
+                0 => {
+                    self.w("if ( a > b ) {");
+                    closers.push("}");
+                }
+                1 => {
+                    self.w("for ( uint256 i = 0 ; i < 3 ; ++ i ) {");
+                    closers.push("}");
+                }
+                2 => {
+                    self.w("unchecked {");
+                    closers.push("}");
+                }
+                3 => {
+                    self.w("try this . ext ( ) { } catch {");
+                    closers.push("}");
+                }
+                4 => {
+                    self.w("if ( a ) { } else {");
+                    closers.push("}");
+                }
+                _ => {
+                    self.w("while ( b ) {");
+                    closers.push("}");
+                }
+            }
+            self.nl();
+        }
+        self.wp(&["selfdestruct", "selfdestruct", "suicide"]);
+        self.w("(");
+        self.wp(&["payable ( msg . sender )", "owner", "msg . sender", "payable ( owner )", "a", "payable ( address ( msg . sender ) )", "address ( uint160 ( msg . sender ) )", "f ( msg . sender )"]);
+        self.w(") ;");
+        self.nl();
+        for c in closers.iter().rev() {
+            self.w(c);
+            self.nl();
+        }
+        if self.t.chance(60) {
+            self.stmt(3);
+            self.nl();
+        }
+        self.w("}");
     }
 
     fn free_function(&mut self) {
